@@ -136,7 +136,7 @@ def parseMsg (ws : List String) (digs : List (Nat × Digest)) : Option Msg :=
                 extra := blob (sv ws "extra"),
                 bs1 := parseSig digs (sv ws "bs1"), bs2 := parseSig digs (sv ws "bs2"),
                 ns1 := parseSig digs (sv ws "ns1"), ns2 := parseSig digs (sv ws "ns2") })
-  | some "cu" =>
+  | some "cu" | some "au" | some "ue" =>
     some (.cu { chain := n ws "chain", scid := n ws "scid", ts := n ws "ts", mf := n ws "mf",
                 cf := n ws "cf", tld := n ws "tld", min := n ws "min", max := n ws "max",
                 base := n ws "base", rate := n ws "rate", extra := blob (sv ws "extra"),
@@ -214,6 +214,20 @@ def updJustifies (s : St) (now : Nat) (e : Seen) (c : Scid) (d : Nat) (ci : Chan
     (ci.cap * 1000 == 0 || decide (u.max ≤ ci.cap * 1000))
   | _ => false
 
+/-- `Builder.ApplyChannelUpdate` (au) verifies fields and the direction owner's signature;
+    `Builder.UpdateEdge` (ue) trusts its caller; both must only apply strictly newer policies. -/
+def directJustifies (opKind : String) (e : Seen) (c : Scid) (d : Nat) (ci : ChanInfo)
+    (old : Option Policy) (new : Policy) : Bool :=
+  match e.msg with
+  | .cu u =>
+    u.scid == c && u.cf % 2 == d && u.policy == new &&
+    (match old with | some o => decide (o.ts < u.ts) | none => true) &&
+    (opKind == "ue" ||
+      (e.vk.contains (if d == 0 then ci.n1 else ci.n2) &&
+       u.mf % 2 == 1 && u.max != 0 && decide (u.min ≤ u.max) &&
+       (ci.cap * 1000 == 0 || decide (u.max ≤ ci.cap * 1000))))
+  | _ => false
+
 def isEndpoint (chans : List (Scid × ChanInfo)) (k : Key) : Bool :=
   chans.any (fun c => c.2.n1 == k || c.2.n2 == k)
 
@@ -253,11 +267,14 @@ def runMonitor (s : St) (opKind : String) (cur : Option Seen) (now : Nat) (relay
       changedPols := (k, p) :: changedPols
       let ciB := lookup k.1 before.chans
       let ciA := lookup k.1 after.chans
-      let known := if opKind == "cu" then ciB.isSome && ciA == ciB else ciA.isSome
+      let directOp := opKind == "au" || opKind == "ue"
+      let known := if opKind == "cu" || directOp then ciB.isSome && ciA == ciB else ciA.isSome
       let just := match ciA with
-        | some ci => cands.any (fun e => updJustifies s now e k.1 k.2 ci old p)
+        | some ci =>
+          if directOp then cands.any (fun e => directJustifies opKind e k.1 k.2 ci old p)
+          else cands.any (fun e => updJustifies s now e k.1 k.2 ci old p)
         | none => false
-      if !(opKind == "cu" || replayOp) || !known || !just then
+      if !(opKind == "cu" || replayOp || directOp) || !known || !just then
         s ← monitor s "chan-update-authentic-fresh" s!"policy {k.1}/{k.2} changed to ts={p.ts} without an update signed by the owning node, strictly newer, not skewed and with consistent fields (op={opKind})"
       else s := { s with polChanges := s.polChanges + 1 }
   -- nodes
@@ -428,7 +445,7 @@ def step (s : St) (line : String) : IO St := do
     s ← runMonitor s "blk" none now relay (splitList (sv ws "wf") ",") after
     return { s with prev := after, replays := s.replays + acc.replayed.length }
   | kind :: rest =>
-    if kind != "ca" && kind != "cu" && kind != "na" then
+    if kind != "ca" && kind != "cu" && kind != "na" && kind != "au" && kind != "ue" then
       if ws.isEmpty then return s else return ← mismatch s s!"unparsed line: {line.take 60}"
     let some m0 := parseMsg ws s.digs | mismatch s "bad message"
     let did := n rest "dig"
@@ -459,10 +476,22 @@ def step (s : St) (line : String) : IO St := do
       s := { s with sampled := s.sampled.filter (· != s.kind) ++ ["#" ++ s.kind] }
     -- (X) model
     let seenAll := cur :: s.seen
-    let (r, acc) := submit s.cfg now s.ms peer m
+    let direct := kind == "au" || kind == "ue"
+    let (rname, acc) : String × Acc :=
+      match direct, m with
+      | true, .cu u =>
+        if kind == "au" then
+          let (st, ok) := applyChannelUpdate s.ms u
+          (if ok then "true" else "false", ⟨st, [], []⟩)
+        else
+          let (st, er) := updateEdge s.ms u
+          (match er with | .ok => "ok" | .ignored => "e_ignored" | .outdated => "e_outdated", ⟨st, [], []⟩)
+      | _, _ =>
+        let (r, acc) := submit s.cfg now s.ms peer m
+        (resName r, acc)
     s := { s with ms := acc.st }
-    if resName r != res then
-      s ← mismatch s s!"{kind} id={id}: result model={resName r} impl={res}"
+    if rname != res then
+      s ← mismatch s s!"{kind} id={id}: result model={rname} impl={res}"
     let mRelay := relayIds seenAll acc.relay
     if mRelay != joinOrDash (sortStr relay) then
       s ← mismatch s s!"{kind} id={id}: relay model={mRelay} impl={sv ws "relay"}"
